@@ -71,8 +71,15 @@ def store_all(path, case, order, strategy):
     sc = scale_info(case)
     acc = ShardedFileAccessor(path, strategy=strategy)
     for pos in order:
-        acc.store_chunk(payload(case["seed"], pos), KEY,
-                        coords_of(pos, case["cs"], sc["size"]))
+        buf = payload(case["seed"], pos)
+        # "a bytes buffer": the encoders hand over bytes or a bytearray; a
+        # flat byte view is the third spelling of the same thing
+        rep = (buf[0] + len(buf)) % 4
+        if rep == 1:
+            buf = bytearray(buf)
+        elif rep == 2:
+            buf = memoryview(buf)
+        acc.store_chunk(buf, KEY, coords_of(pos, case["cs"], sc["size"]))
     acc.close()
     return acc
 
